@@ -197,3 +197,12 @@ package schemas
 
 //@ func cacheKey@drops
 //@   errdrop GetRefType: a reference whose kind cannot be told keeps its own text as its key; loading it fails in the loader under the cache, which reports the error
+
+// ---- a remote document is read whole (C18) -----------------------------------------
+// What the parsers get is the response body itself: a reader put in between that
+// ends early (a size cap) turns a long YAML document into a shorter valid one, and
+// whatever cannot be generated past the cut no longer fails the run.
+//@ func (*HTTPLoader).Load@body
+//@   props C18 C13
+//@   arg-from FromJSONReader 0 field:Body
+//@   arg-from FromYAMLReader 0 field:Body
